@@ -1199,6 +1199,30 @@ def import_private_methods(tree, trees, pkg, modname):
     return done
 
 
+def protective_enter(tree):
+    """def __enter__(self): try: BODY  except BaseException: <release what was acquired>; raise       ==>   def __enter__(self): BODY
+    The wrapper only matters when BODY fails (then it closes the handle, resets flags and re-raises); on every path that enters
+    the context it is BODY.  The rules over __enter__ describe the entered context; the failing path is decided by C08's
+    enter-failure rule on the un-normalised source."""
+    n = 0
+    for cls in [c for c in tree.body if isinstance(c, ast.ClassDef)]:
+        for fn in [m for m in cls.body if isinstance(m, ast.FunctionDef) and m.name == "__enter__"]:
+            body = strip_doc(fn.body)
+            if len(body) == 1 and isinstance(body[0], ast.Try) and not body[0].orelse and not body[0].finalbody and body[0].handlers \
+                    and all(h.body and isinstance(h.body[-1], ast.Raise) and h.body[-1].exc is None for h in body[0].handlers):
+                harmless = True
+                for h in body[0].handlers:
+                    for x in ast.walk(h):
+                        if isinstance(x, ast.Call) and not (ast.unparse(x.func) in ("getattr", "hasattr", "self.__exit__") or (isinstance(x.func, ast.Attribute) and x.func.attr == "close")):
+                            harmless = False
+                if harmless:
+                    fn.body = [b for b in fn.body if b is not body[0]] + body[0].body
+                    n += 1
+    if n:
+        ast.fix_missing_locations(tree)
+    return n
+
+
 def positional_args(tree):
     """self.m(b=2, a=1) / f(a=1, b=2)  ==>  self.m(1, 2) / f(1, 2)   for methods of the enclosing class and functions of the module
     whose parameter list is plain (no *args / **kwargs / keyword-only) and when the keywords fill a prefix of it without gaps.
@@ -1354,6 +1378,9 @@ def normalise_module(tree: ast.Module):
     if DispatchSplit(CLASS_NAMES).run(tree):
         ast.fix_missing_locations(tree)
     _inline_helpers(tree, bases, info)
+    if protective_enter(tree):
+        info["protective_enter"] = 1
+        _inline_helpers(tree, bases, info)
     LoopNorm().visit(tree)
     info["copyprop_rounds"] = normalise_functions(tree)
     ast.fix_missing_locations(tree)
